@@ -91,21 +91,18 @@ Definition adv_group (g : group) : option pb :=
     end
   end.
 
-(* the `for battery_ids in battery_sets` loop: running sums + "timestamp was updated" *)
-Fixpoint adv_loop (gs : list group) (acc : pb) (any : bool) : pb * bool :=
-  match gs with
-  | [] => (acc, any)
-  | g :: r =>
-    match adv_group g with
-    | None => adv_loop r acc any
-    | Some c => adv_loop r (mkPB (il acc + il c) (el acc + el c) (eu acc + eu c) (iu acc + iu c)) true
-    end
-  end.
+(* the `for battery_ids in battery_sets` loop appends one contribution per group that was not
+   skipped to each of the four lists *)
+Definition adv_contribs (gs : list group) : list pb := somes (map adv_group gs).
 
-(* PowerBoundsCalculator.calculate: None = SystemBounds(inclusion_bounds=None, exclusion_bounds=None) *)
+(* PowerBoundsCalculator.calculate: the four lists are added up with sum();
+   None = SystemBounds(inclusion_bounds=None, exclusion_bounds=None), returned when no group
+   contributed (timestamp == _MIN_TIMESTAMP) *)
 Definition advertised (gs : list group) : option pb :=
-  let '(acc, any) := adv_loop gs (mkPB 0 0 0 0) false in
-  if any then Some acc else None.
+  match adv_contribs gs with
+  | [] => None
+  | cs => Some (mkPB (qsum (map il cs)) (qsum (map el cs)) (qsum (map eu cs)) (qsum (map iu cs)))
+  end.
 
 (* Bounds.__contains__ (both ends present) and SystemBounds.__contains__ *)
 Definition bounds_contains (lo hi x : Q) : bool := Qle_bool lo x && Qle_bool x hi.
